@@ -1,5 +1,6 @@
 pub mod gen;
 mod algs;
+mod api;
 mod misc;
 mod text;
 
@@ -23,6 +24,7 @@ pub fn run(suite: &str, ctx: &mut Ctx) {
         "close" => text::suite_close(ctx),
         "identify" => text::suite_identify(ctx),
         "determinism" => text::suite_determinism(ctx),
+        "api" => api::suite_api(ctx),
         _ => panic!("unknown suite {}", suite),
     }
 }
